@@ -100,7 +100,14 @@ class C08(MTCheck):
         use_tc = rng.random() < 0.3
         use_q = (not use_tc) and len(loops) == 1 and rng.random() < 0.15
         use_raw = rng.random() < 0.2                      # a user raw event on loop 0: a second ready descriptor
-        nhelp = 2 if use_tc else 0
+        nhelp = 3 if use_tc else 0
+        tc_left = [3 if use_tc else 0]    # helper creations per scenario (each gets the next thread index)
+
+        def take_tc():
+            if tc_left[0] and rng.random() < 0.5:
+                tc_left[0] -= 1
+                return True
+            return False
         threads = loops + posters + [len(loops) + nposters + i for i in range(nhelp)]
         shared = {k: list(range(rng.choice([1, 2, 2, 3]))) for k in loops}
         private = {k: [len(shared[k]) + i for i in range(rng.choice([0, 1, 1, 2]))] for k in loops}
@@ -134,13 +141,13 @@ class C08(MTCheck):
             for j in range(rng.choice([0, 0, 1, 2])):
                 body.append("tr%d+%d" % (j, rng.choice([1000, 5000, 1000000])))
                 acts = [rng.choice([self_post(k), other_post(k), "y"]) for _ in range(rng.randint(1, 2))]
-                if use_tc and rng.random() < 0.5:
+                if take_tc():
                     acts.append("tc%d" % rng.randint(0, 1))
                 secs.append("H%dt%d:%s" % (k, j, " ".join(acts)))
             if rng.random() < 0.25:
                 body.append("kr0")
                 acts = [self_post(k) for _ in range(rng.randint(1, 2))]
-                if use_tc and rng.random() < 0.5:
+                if take_tc():
                     acts.append("tc%d" % rng.randint(0, 1))
                 secs.append("H%dk0:%s" % (k, " ".join(acts)))
             secs.append("L%d:%s" % (k, " ".join(body)))
@@ -161,7 +168,7 @@ class C08(MTCheck):
                             acts.append("eu%d" % rng.choice(private[k]))
                         elif r < 0.85 and private[k]:
                             acts.append("er%d" % rng.choice(private[k]))
-                        elif r < 0.9 and use_tc and li < nl - 1:
+                        elif r < 0.9 and li < nl - 1 and take_tc():
                             acts.append("tc%d" % rng.randint(0, 1))
                         elif r < 0.93 and use_q:
                             acts.append("q")
